@@ -109,10 +109,19 @@ KN == (2 * sh.renc * (Abs(bx) + by)) \div (ax * by) + 2
 
 Combine(vs) == IF "overlap" \in vs THEN "overlap" ELSE IF "touch" \in vs THEN "touch" ELSE "apart"
 Shell(n, m) == IF Abs(n) >= Abs(m) THEN Abs(n) ELSE Abs(m)
-\* pairs of distinct images, one in the home cell, whose centres are close enough to matter
+\* pairs of distinct images, one in the home cell, whose centres are close enough to matter.
+\* The rows m and then the columns n are cut down with the box form of Far before any pair is
+\* formed (same set as filtering the full product, far fewer evaluations).
+NearNM(k1, k2, kn, km) ==
+  LET dfx == Frac(k2)[1] - Frac(k1)[1]
+      dfy == Frac(k2)[2] - Frac(k1)[2]
+      ms == { m \in -km..km : Abs(Hh * (dfy + m * D) * by) <= 2 * Renc }
+  IN UNION { { <<n, m>> : n \in { n \in -kn..kn :
+                  Abs(Hh * ((dfx + n * D) * ax + (dfy + m * D) * bx)) <= 2 * Renc } } : m \in ms }
 NearPairs(kn, km) ==
-  { p \in (1..N) \X (1..N) \X (-kn..kn) \X (-km..km) :
-      ~(p[1] = p[2] /\ p[3] = 0 /\ p[4] = 0) /\ ~Far(p[1], p[2], p[3], p[4]) }
+  UNION { { <<k1, k2, nm[1], nm[2]>> : nm \in { q \in NearNM(k1, k2, kn, km) :
+                                                   ~(k1 = k2 /\ q[1] = 0 /\ q[2] = 0) } } :
+          k1 \in 1..N, k2 \in 1..N }
 \* <<shell index, verdict>> of every near pair: everything below is read off this one set
 Verdicts(kn, km) == { <<Shell(p[3], p[4]), PairVerdict(p[1], p[2], p[3], p[4])>> : p \in NearPairs(kn, km) }
 VerdictOf(vs) == Combine({ v[2] : v \in vs })
@@ -189,12 +198,16 @@ RatioOK == /\ 100 * (bx * bx + by * by) >= ax * ax            \* ratio >= 0.1
            /\ bx * bx + by * by <= ax * ax                     \* ratio <= 1
 StateOK == FamilyOK /\ RatioOK /\ by > 0 /\ ax > 0
 
+\* one initial state per (group, shape): any admissible cell of the sets; the moves reach the rest
+CellOK(a, b) == /\ (RefFamily(g) = "Monoclinic" => (b[1] >= 0 /\ 3 * b[2] * b[2] >= b[1] * b[1]))
+                /\ (RefFamily(g) # "Monoclinic" => b[1] = 0)
+                /\ 100 * (b[1] * b[1] + b[2] * b[2]) >= a * a /\ b[1] * b[1] + b[2] * b[2] <= a * a
+                /\ b[2] > 0 /\ a > 0
 Init == /\ g \in GroupSet /\ sh \in ShapeSet
-        /\ ax = MaxOf(AxSet)
-        /\ LET b == CHOOSE b \in BSet : b[1] = 0 /\ \A c \in BSet : c[1] = 0 => c[2] <= b[2]
-           IN bx = b[1] /\ by = b[2]
+        /\ LET cand == { c \in AxSet \X BSet : CellOK(c[1], c[2]) }
+           IN /\ cand # {}
+              /\ LET c == CHOOSE c \in cand : TRUE IN ax = c[1] /\ bx = c[2][1] /\ by = c[2][2]
         /\ sx = MinOf(SiteSet) /\ sy = MinOf(SiteSet) /\ o = MinOf(OrientSet)
-        /\ StateOK
 
 MoveA == \E a2 \in AxSet : ax' = a2 /\ UNCHANGED <<g, sh, bx, by, sx, sy, o>>
 MoveB == \E b2 \in BSet : bx' = b2[1] /\ by' = b2[2] /\ UNCHANGED <<g, sh, ax, sx, sy, o>>
